@@ -485,6 +485,22 @@ REJECTIONS = ['invalid_name', 'invalid_name_slash', 'invalid_module', 'other_obj
               'deny_unknown', 'both_lists', 'allowlist_not_list', 'name_with_invalid_module_part']
 
 
+class EqCallable:
+  """Value-based equality: two distinct instances compare (and hash) equal."""
+
+  def __init__(self, tag):
+    self.tag = tag
+
+  def __call__(self, a='da', x='dx'):
+    return (self.tag, a, x)
+
+  def __eq__(self, other):
+    return isinstance(other, EqCallable)
+
+  def __hash__(self):
+    return 7
+
+
 def case_reject(kind, api, what, res):
   desc = ['reject', kind, api, what]
   harness.hard_reset()
@@ -497,6 +513,9 @@ def case_reject(kind, api, what, res):
       return put(f, fresh('rfn'))
     if what == 'class_with_method':
       return c_with_method()   # its method is already registered on its own
+    if what == 'equal_callable':
+      _N[0] += 1
+      return EqCallable(_N[0])
     return c_init()
   first = mk()
   nm = fresh('taken')
@@ -528,6 +547,8 @@ def case_reject(kind, api, what, res):
   before_inv = dict(cfg._INVERSE_REGISTRY)
   before_renamed = dict(cfg._RENAMED_SELECTORS)
   before_vars = dict(vars(obj))
+  if what == 'equal_callable' and api != 'external_configurable' and kind != 'other_object_same_name':
+    pass
   try:
     if api == 'external_configurable':
       gin.external_configurable(obj, name=name, **kw)
@@ -623,7 +644,7 @@ def gen(tier):
     yield ['callable', kind, api, form, scope]
   for shape, api, form, scope in itertools.product(CLASSES, APIS, FORMS, SCOPES):
     yield ['class', shape, api, form, scope]
-  for kind, api, what in itertools.product(REJECTIONS, APIS, ['fn', 'class', 'class_with_method']):
+  for kind, api, what in itertools.product(REJECTIONS, APIS, ['fn', 'class', 'class_with_method', 'equal_callable']):
     yield ['reject', kind, api, what]
   for api, how in itertools.product(APIS, ['context', 'context_exception', 'explicit']):
     yield ['interactive', api, how]
